@@ -530,6 +530,26 @@ pub fn run(opts: &Opts) -> Report {
             rep.fail("oracle", "find_text/empty-needle-never-ends", vec!["text=\"abc\" needle=\"\"".into()], "a finite result", &res_s(&got));
         }
     }
+    // regular expressions: no expression at all; options set through RegexBuilder, with one to four expressions (adding an
+    // expression that matches nowhere changes nothing)
+    {
+        let w = world("xx ABC yy", &[]);
+        rep.count("find_text_regex:no-expressions");
+        match guarded(std::panic::AssertUnwindSafe(|| w.store.resource("r").unwrap().find_text_regex(&[], None, true).map(|it| it.count()).map_err(|e| format!("{}", e)))) {
+            Err(m) => rep.fail("panic", "find_text_regex/no-expressions/panic", vec!["find_text_regex(&[], None, true)".into()], "nothing found, or an error", &m),
+            Ok(_) => {}
+        }
+        let ci = regex::RegexBuilder::new("abc").case_insensitive(true).build().unwrap();
+        let want: Vec<(usize, usize)> = vec![(3, 6)];
+        for extra in 0..4 {
+            let mut exprs = vec![ci.clone()];
+            for k in 0..extra { exprs.push(regex::Regex::new(&format!("q{}q", "z".repeat(k + 1))).unwrap()); }
+            rep.count("find_text_regex:builder-options");
+            rep.case(Some(&format!("regex-builder-options {}", extra)));
+            let got = guarded(std::panic::AssertUnwindSafe(|| w.store.resource("r").unwrap().find_text_regex(&exprs, None, true).map(|it| it.map(|m| (m.textselections()[0].begin(), m.textselections()[0].end())).collect::<Vec<_>>()).map_err(|e| format!("{}", e))));
+            if got != Ok(Ok(want.clone())) { rep.fail("oracle", "find_text_regex/builder-options-lost", vec![format!("text=\"xx ABC yy\" expressions: RegexBuilder(\"abc\").case_insensitive(true) and {} expressions that match nowhere", extra)], &format!("{:?}", want), &format!("{:?}", got)); }
+        }
+    }
     rep.sample(json!({"op": "find_text", "text": "a\u{e9}a b", "range": [1, 5], "needle": "a", "expected": [[2, 3]]}));
     rep.sample(json!({"op": "split_text", "text": "ab cd e", "range": [3, 7], "delimiter": " ", "expected": [[3, 5], [6, 7]]}));
     rep.sample(json!({"op": "find_text_regex", "text": "Hello wonderful world", "range": [6, 21], "pattern": "w[a-z]+"}));
